@@ -259,6 +259,10 @@ func startWatches(ctx context.Context, t testing.TB, st state.State) map[string]
 	single("kind-bootstrap", func(ch chan state.Event) error {
 		return st.WatchKind(ctx, kind, ch, state.WithBootstrapContents(true))
 	})
+	// both bootstrap options at once: contents, the Bootstrapped marker, then the bookmark no-op
+	single("kind-bootstrap-both", func(ch chan state.Event) error {
+		return st.WatchKind(ctx, kind, ch, state.WithBootstrapContents(true), state.WithBootstrapBookmark(true))
+	})
 	single("kind-label", func(ch chan state.Event) error {
 		return st.WatchKind(ctx, kind, ch, state.WatchWithLabelQuery(resource.LabelExists("l")), state.WithBootstrapBookmark(true))
 	})
@@ -315,6 +319,40 @@ func startLateWatches(ctx context.Context, t testing.TB, st state.State) map[str
 				case evs := <-aggCh:
 					for _, ev := range evs {
 						agg.add(ev)
+					}
+				}
+			}
+		}()
+
+		// late watches with both bootstrap options (non-empty contents), single and aggregated
+		both := &collector{}
+		bothCh := make(chan state.Event)
+
+		if err := st.WatchKind(ctx, kind, bothCh, state.WithBootstrapContents(true), state.WithBootstrapBookmark(true)); err != nil {
+			t.Fatal(err)
+		}
+
+		res["late-kind-both-"+typ] = both
+
+		aggBoth := &collector{}
+		aggBothCh := make(chan []state.Event)
+
+		if err := st.WatchKindAggregated(ctx, kind, aggBothCh, state.WithBootstrapContents(true), state.WithBootstrapBookmark(true)); err != nil {
+			t.Fatal(err)
+		}
+
+		res["late-agg-both-"+typ] = aggBoth
+
+		go func() {
+			for {
+				select {
+				case <-ctx.Done():
+					return
+				case ev := <-bothCh:
+					both.add(ev)
+				case evs := <-aggBothCh:
+					for _, ev := range evs {
+						aggBoth.add(ev)
 					}
 				}
 			}
